@@ -1,6 +1,7 @@
 package sim
 
 import (
+	"bytes"
 	"fmt"
 	"sort"
 	"strings"
@@ -221,7 +222,13 @@ func (c *cluster) pushPull(only int) {
 					c.sim.mtx.Unlock()
 				}
 				_ = b.nflog.Merge(st)
-				if gaps := nflogNotCovered(st, b.nflog, at); len(gaps) > 0 {
+				// reference: what the sender holds (its snapshot form), not what it chose to put on the wire
+				ref := st
+				var sb bytes.Buffer
+				if _, err := a.nflog.Snapshot(&sb); err == nil {
+					ref = sb.Bytes()
+				}
+				if gaps := nflogNotCovered(ref, b.nflog, at); len(gaps) > 0 {
 					c.sim.mtx.Lock()
 					c.sim.trace.PushPullGaps = append(c.sim.trace.PushPullGaps, fmt.Sprintf("at %s instance %d merged the full state of instance %d but does not hold: %s", at.Format("15:04:05.000"), j, i, strings.Join(gaps, "; ")))
 					c.sim.mtx.Unlock()
